@@ -123,4 +123,99 @@ def lowerC (c : Nat) : Nat := if 65 ≤ c ∧ c ≤ 90 then c + 32 else c
 def globMatches (src tgt : List Nat) : Bool :=
   glob (tokens (src.map lowerC)) (unquote (tgt.map lowerC))
 
+/-! ### attribute-value strings (NISTIR 7695 §5.3.2)
+
+  A value string is printable ASCII without spaces; letters, digits and the
+  underscore stand for themselves, every other character must be quoted with a
+  backslash; the two special characters may appear unquoted only at the ends:
+  one `*` or a run of `?` in front, and one `*` or a run of `?` at the end.  A
+  single `*` and a single quoted hyphen are not value strings (they would read
+  as ANY and NA). -/
+
+/-- The special characters at one end of a value: `none` = one `*`,
+    `some n` = a run of `n` question marks (`some 0` = nothing). -/
+def leadStr : Option Nat → List Nat
+  | none => [42]
+  | some n => List.replicate n 63
+
+/-- Letter, digit or underscore. -/
+def unreservedC (c : Nat) : Bool :=
+  (48 ≤ c && c ≤ 57) || (65 ≤ c && c ≤ 90) || (97 ≤ c && c ≤ 122) || c == 95
+
+/-- The part of a value between the special characters: unquoted letters,
+    digits, underscores, and quoted pairs `\x` (scanner with escape state). -/
+def bodyStr (esc : Bool) : List Nat → Bool
+  | [] => !esc
+  | c :: rest =>
+    if esc then bodyStr false rest
+    else if c = 92 then bodyStr true rest
+    else unreservedC c && bodyStr false rest
+
+/-- Printable ASCII, no space. -/
+def printableC (c : Nat) : Bool := c < 127 && !(c == 32 || (9 ≤ c && c ≤ 13))
+
+/-- The value strings `validate` accepts (theorem `validate_iff_grammar`).
+    Compared with the naming specification this is lenient in three ways, each
+    a recorded finding: the body may be empty (`??`, `**`), any character may be
+    quoted (also a letter or a control character), and `?`-runs/`*` may be
+    combined freely at the two ends. -/
+def ValueGrammar (s : List Nat) : Prop :=
+  s.all printableC = true ∧ s ≠ [42] ∧ s ≠ [92, 45] ∧
+    ∃ l body r, s = leadStr l ++ body ++ leadStr r ∧ bodyStr false body = true
+
+/-! ### formatted strings (NISTIR 7695 §6.2, Figure 6-3; cpe-naming_2.3.xsd)
+
+     formstring = "cpe:2.3:" part ":" vendor ":" product ":" version ":" update ":"
+                  edition ":" lang ":" sw_edition ":" target_sw ":" target_hw ":" other
+     part       = "h" / "o" / "a" / "*" / "-"
+     avstring   = ( [ "*" / 1*"?" ] 1*( unreserved / quoted ) [ "*" / 1*"?" ] ) / "*" / "-"
+     unreserved = ALPHA / DIGIT / "-" / "." / "_"
+     quoted     = "\" ( "\" / "*" / "?" / punc )
+     punc       = ! " # $ % & ' ( ) + , / : ; < = > @ [ ] ^ ` { | } ~
+
+     lang       = ( 2*3ALPHA [ "-" ( 2ALPHA / 3DIGIT ) ] ) / "*" / "-" -/
+
+def puncC (c : Nat) : Bool :=
+  [33, 34, 35, 36, 37, 38, 39, 40, 41, 43, 44, 47, 58, 59, 60, 61, 62, 64, 91, 93, 94, 96, 123, 124, 125, 126].contains c
+
+def fsUnreservedC (c : Nat) : Bool := unreservedC c || c == 45 || c == 46
+
+/-- `1*( unreserved / quoted )`, scanner with escape state. -/
+def fsBodyStr (esc : Bool) : List Nat → Bool
+  | [] => !esc
+  | c :: rest =>
+    if esc then (c == 92 || c == 42 || c == 63 || puncC c) && fsBodyStr false rest
+    else if c = 92 then fsBodyStr true rest
+    else fsUnreservedC c && fsBodyStr false rest
+
+def AvString (c : List Nat) : Prop :=
+  c = [42] ∨ c = [45] ∨
+    ∃ l body r, c = leadStr l ++ body ++ leadStr r ∧ body ≠ [] ∧ fsBodyStr false body = true
+
+def PartString (c : List Nat) : Prop := c = [97] ∨ c = [111] ∨ c = [104] ∨ c = [42] ∨ c = [45]
+
+def alphaC (c : Nat) : Bool := (65 ≤ c && c ≤ 90) || (97 ≤ c && c ≤ 122)
+def digitC (c : Nat) : Bool := 48 ≤ c && c ≤ 57
+
+/-- `2*3ALPHA [ "-" ( 2ALPHA / 3DIGIT ) ]` -/
+def langTagB (c : List Nat) : Bool :=
+  match c with
+  | [a, b] => alphaC a && alphaC b
+  | [a, b, x] => alphaC a && alphaC b && alphaC x
+  | [a, b, h, x, y] => alphaC a && alphaC b && h == 45 && alphaC x && alphaC y
+  | [a, b, h, x, y, z] =>
+    (alphaC a && alphaC b && h == 45 && digitC x && digitC y && digitC z) ||
+      (alphaC a && alphaC b && alphaC h && x == 45 && alphaC y && alphaC z)
+  | [a, b, d, h, x, y, z] => alphaC a && alphaC b && alphaC d && h == 45 && digitC x && digitC y && digitC z
+  | _ => false
+
+def LangString (c : List Nat) : Prop := c = [42] ∨ c = [45] ∨ langTagB c = true
+
+/-- "cpe:2.3" followed by eleven components, each introduced by a colon; the
+    first is a part, the seventh a language. -/
+def FormattedString (s : List Nat) : Prop :=
+  ∃ part rest, rest.length = 10 ∧ PartString part ∧ (∀ c ∈ rest, AvString c) ∧
+    (∀ c, rest[5]? = some c → LangString c) ∧
+    s = [99, 112, 101, 58, 50, 46, 51] ++ (part :: rest).flatMap fun c => 58 :: c
+
 end ClairModel.CpeSpec
